@@ -2,32 +2,45 @@ import PhyVerif.Model.C19
 /-! Specification side of C19, written independently of the emitter's and reporter's state. -/
 namespace PhyVerif.C19
 
-/-- callbacks registered after a history: connects in order, minus what unconnect/reset removed -/
+/-- callbacks registered after a history: successful connects in order, minus what unconnect/reset
+removed (a `connect` that raises `ValueError` registers nothing) -/
 def registered : List EOp → List Cb
   | [] => []
   | ops =>
     ops.foldl (fun acc op =>
       match op with
-      | .connect c => acc ++ [c]
+      | .connect r => (match connectCb r with | some c => acc ++ [c] | none => acc)
       | .unconnect items => acc.filter (keeps items)
       | .reset => []
       | _ => acc) []
 
 /-- the callbacks an emit must call, in order: registered for the event, sender filter absent or
 equal, registration order with `last` ones after all others -/
-def shouldCall (reg : List Cb) (event sender : Nat) : List Nat :=
+def shouldCall (reg : List Cb) (event : String) (sender : Nat) : List Nat :=
   let m := reg.filter fun c => c.event == event &&
     (match c.sender with | none => true | some s => s == sender)
   ((m.filter fun c => !c.last) ++ (m.filter fun c => c.last)).map (·.id)
 
-/-- expected outcome of an un-silenced emit -/
-def emitSpec (reg : List Cb) (event sender : Nat) (single : Bool) : EOut :=
-  let ids := shouldCall reg event sender
-  if single then
-    match ids with
+/-- what the callbacks must receive: the emit's keyword arguments without the `single` entry -/
+def forwarded (kw : Kwargs) : Kwargs := kw.filter fun p => p.1 != "single"
+
+/-- is a single result requested?  (`single=<truthy>` among the keyword arguments) -/
+def wantsSingle (kw : Kwargs) : Bool :=
+  match kw.lookup "single" with
+  | some v => v != 0
+  | none => false
+
+/-- expected outcome of an un-silenced emit: each callback of `shouldCall` is invoked once with
+(sender, args, forwarded kwargs); the returned list holds the callbacks' results in that order;
+with `single` only the first callback is invoked and its result is returned bare -/
+def emitSpec (result : Call → Nat) (reg : List Cb) (event : String) (sender : Nat) (args : List Nat)
+    (kw : Kwargs) : EOut :=
+  let calls := (shouldCall reg event sender).map fun i => (⟨i, sender, args, forwarded kw⟩ : Call)
+  if wantsSingle kw then
+    match calls with
     | [] => ⟨[], .list []⟩
-    | i :: _ => ⟨[i], .one i⟩
-  else ⟨ids, .list ids⟩
+    | c :: _ => ⟨[c], .one (result c)⟩
+  else ⟨calls, .list (calls.map result)⟩
 
 /-- nesting depth of open `silent()` contexts after a history (exits without a matching enter are
 ignored) and the flag given by the last `set_silent` -/
@@ -39,7 +52,8 @@ def depthFlag : List EOp → Nat × Bool
       | .setSilent b => (df.1, b)
       | _ => df) (0, false)
 
-/-- histories in scope: `set_silent` is only used outside `silent()` contexts, exits match enters -/
+/-- histories in scope of `emit_outcomes`: `set_silent` is only used outside `silent()` contexts,
+exits match enters -/
 def WellNested : List EOp → Nat → Prop
   | [], _ => True
   | .enterSilent :: ops, d => WellNested ops (d + 1)
@@ -47,14 +61,59 @@ def WellNested : List EOp → Nat → Prop
   | .setSilent _ :: ops, d => d = 0 ∧ WellNested ops d
   | _ :: ops, d => WellNested ops d
 
-/-- expected outcomes of all emits of a history: for each emit, look at the prefix before it -/
-def emitsSpec (pre : List EOp) : List EOp → List EOut
+/-- the only restriction Python itself imposes: a `silent()` context can be left only after it has
+been entered (`d` = contexts open so far).  `set_silent` may occur anywhere. -/
+def ExitsMatched : List EOp → Nat → Prop
+  | [], _ => True
+  | .enterSilent :: ops, d => ExitsMatched ops (d + 1)
+  | .exitSilent :: ops, d => 0 < d ∧ ExitsMatched ops (d - 1)
+  | _ :: ops, d => ExitsMatched ops d
+
+/-- The silence flag after a history, read off the history BACKWARDS (`rev` = most recent operation
+first), without any state: the flag is what the most recent assignment gave it — `set_silent(b)`
+assigns `b`, entering a context assigns True, leaving a context assigns the value the flag had just
+before the matching enter.  `k` = number of enters still to be skipped while looking for that
+matching enter (`k = 0`: looking for the most recent assignment). -/
+def silentBack : List EOp → Nat → Bool
+  | [], _ => false
+  | op :: r, 0 =>
+    match op with
+    | .setSilent b => b
+    | .enterSilent => true
+    | .exitSilent => silentBack r 1
+    | _ => silentBack r 0
+  | op :: r, k + 1 =>
+    match op with
+    | .enterSilent => silentBack r k
+    | .exitSilent => silentBack r (k + 2)
+    | _ => silentBack r (k + 1)
+
+/-- is the emitter silenced after the history `pre`? -/
+def silencedAfter (pre : List EOp) : Bool := silentBack pre.reverse 0
+
+/-- expected outcomes of all emits of a history: for each emit, look at the prefix before it
+(histories satisfying `WellNested`) -/
+def emitsSpec (result : Call → Nat) (pre : List EOp) : List EOp → List EOut
   | [] => []
-  | .emit e s single :: ops =>
+  | .emit e s a kw :: ops =>
     let df := depthFlag pre
-    (if df.1 > 0 || df.2 then ⟨[], .none⟩ else emitSpec (registered pre) e s single) ::
-      emitsSpec (pre ++ [.emit e s single]) ops
-  | op :: ops => emitsSpec (pre ++ [op]) ops
+    (if df.1 > 0 || df.2 then ⟨[], .none⟩ else emitSpec result (registered pre) e s a kw) ::
+      emitsSpec result (pre ++ [.emit e s a kw]) ops
+  | op :: ops => emitsSpec result (pre ++ [op]) ops
+
+/-- expected outcomes of all emits of ANY history (only `ExitsMatched` is assumed): silencing is
+decided by `silencedAfter` -/
+def emitsSpecG (result : Call → Nat) (pre : List EOp) : List EOp → List EOut
+  | [] => []
+  | .emit e s a kw :: ops =>
+    (if silencedAfter pre then ⟨[], .none⟩ else emitSpec result (registered pre) e s a kw) ::
+      emitsSpecG result (pre ++ [.emit e s a kw]) ops
+  | op :: ops => emitsSpecG result (pre ++ [op]) ops
+
+/-- The behaviour of the recording stubs the correspondence run registers as callbacks (and of the
+non-vacuity examples): a stub answers a number made of its identity, the sender it was handed and the
+number of positional arguments it received.  The theorems hold for every behaviour. -/
+def stubResult (c : Call) : Nat := 1000 * c.id + 10 * c.sender + c.args.length
 
 /-! ### reporter -/
 
